@@ -243,6 +243,17 @@ def run(model, col, tier):
                     if any(vn in src for vn in valnames) and "localScope" not in src and ".Value" not in src:
                         expr = src
             if expr is None:
+                # conversion given as a one-argument lambda:  convert = lambda v: <expr over v>
+                for e in evs:
+                    if e.kind == "stmt" and isinstance(e.node, ast.Assign) and isinstance(e.node.value, ast.Lambda) and len(e.node.value.args.args) == 1:
+                        a = e.node.value.args.args[0].arg
+
+                        class R(ast.NodeTransformer):
+                            def visit_Name(self, n):
+                                return ast.copy_location(ast.Name(id="$v", ctx=n.ctx), n) if n.id == a else n
+
+                        expr = unparse(R().visit(ast.parse(unparse(e.node.value.body), mode="eval").body))
+            if expr is None:
                 continue
             for vn in valnames:
                 expr = expr.replace(vn, "$v")
